@@ -302,6 +302,9 @@ impl Envelope {
                     } else {
                         return Some(Err(anyhow::anyhow!("Unexpected outer signature object type.")));
                     }
+                } else {
+                    // Metadata not covered by an outer signature is never accepted.
+                    return None;
                 }
 
                 let signature_metadata_envelope = signature_object_subject.unwrap_envelope().unwrap();
